@@ -366,7 +366,7 @@ Proof.
   exists [mkQueue 2 1 1 false].
   exists (mkJob 7 [mkTask 4 (-2147483648) None (mkTmpl 1 false 0) [] 0 None None;
                    mkTask 5 (-1) None (mkTmpl 1 false 0) [] 0 None None]
-                5 [] [] None 2 0 0 0 0 0).
+                5 [] [] None 2 0 0 0 0 0 false).
   vm_compute. split; reflexivity.
 Qed.
 
@@ -376,7 +376,7 @@ Qed.
    terminating still makes its parent a non-leaf ... *)
 Definition tq_oracles := mkOracles (fun _ _ => true) (fun _ _ _ => true) (fun _ => true) (fun _ => true).
 Definition tq_job (q : Z) : job :=
-  mkJob 7 [mkTask 4 1 (Some 1) (mkTmpl 1 false 0) [] 3 None None] 1 [] [] None q 1 3 0 0 0.
+  mkJob 7 [mkTask 4 1 (Some 1) (mkTmpl 1 false 0) [] 3 None None] 1 [] [] None q 1 3 0 0 0 false.
 Lemma create_terminating_child_still_blocks :
   validate_create tq_oracles [mkQueue 1 1 0 false; mkQueue 4 1 1 false; mkQueue 5 1 4 true] (tq_job 4) = false /\
   validate_create tq_oracles [mkQueue 1 1 0 false; mkQueue 4 1 1 false] (tq_job 4) = true.
